@@ -24,11 +24,24 @@ def serialize_prelude(prelude):
 
 
 def extract_color_from_decl(decl):
-    return tinycss2.serialize(decl.value).strip()
+    # comments written inside the value are not part of the colour
+    return tinycss2.serialize([t for t in decl.value if t.type != "comment"]).strip()
 
 
 def update_decl_value(decl, new_value_str):
-    decl.value = tinycss2.parse_component_value_list(new_value_str)
+    # replace the colour, keep the comments and blanks written before and after it
+    def is_padding(token):
+        return token.type in ("comment", "whitespace")
+
+    old = list(decl.value)
+    start, end = 0, len(old)
+    while start < end and is_padding(old[start]):
+        start += 1
+    while end > start and is_padding(old[end - 1]):
+        end -= 1
+    decl.value = (
+        old[:start] + tinycss2.parse_component_value_list(new_value_str) + old[end:]
+    )
 
 
 def collect_variables(rules):
@@ -367,7 +380,7 @@ def main(path, default_bg, mode, premium):
                                         continue
                                 variables[decl.name] = {
                                     "decl": decl,
-                                    "value": tinycss2.serialize(decl.value).strip(),
+                                    "value": extract_color_from_decl(decl),
                                     "rule": rule,  # Keep ref to rule
                                     "selector": selector,
                                 }
